@@ -156,6 +156,7 @@ type Interp struct {
 	asserts   []AssertRec
 	covers    map[string]bool
 	preempts  int
+	preemptLim int // -1: cfg.Preempt; otherwise the absolute preemption count allowed (set by symPreemptBudget)
 	nowT      *Term
 	nowPinned bool
 	loopBound int
@@ -236,6 +237,7 @@ func (in *Interp) resetPath(prefix []int) {
 	in.asserts = nil
 	in.covers = map[string]bool{}
 	in.preempts = 0
+	in.preemptLim = -1
 	in.nowT = nil
 	in.nowPinned = false
 	in.loopBound = 0
